@@ -535,7 +535,16 @@ storage_types! {
     impl crate::ConversionFactor<Self> for V {
         #[inline(always)]
         fn powi(self, e: i32) -> Self {
-            <Self as crate::num::Float>::powi(self, e)
+            // Exponentiation by squaring on the storage type itself. `Float::powi` resolves to
+            // a compiler intrinsic with `std` and to a software implementation without, and the
+            // two round differently.
+            match e.cmp(&0) {
+                crate::lib::cmp::Ordering::Equal => <Self as crate::num::One>::one(),
+                crate::lib::cmp::Ordering::Less => {
+                    crate::num::pow::pow(<Self as crate::num::Float>::recip(self), e.unsigned_abs() as usize)
+                }
+                crate::lib::cmp::Ordering::Greater => crate::num::pow::pow(self, e as usize),
+            }
         }
 
         #[inline(always)]
